@@ -205,8 +205,245 @@ func (c *Ctx) usedResultsIn(rule string, fn *ssa.Function) {
 			c.R.Check(used, rule, name(fn), construct, c.IPos(call),
 				"data consumed by a sub-decoder must be kept (its value result is used)",
 				"the decoded value is discarded: the bytes were consumed from the stream but are dropped from the result, so re-encoding cannot reproduce the input")
+			// in a loop: kept on every iteration that decoded something (no filter between
+			// the successful decode and the place the value is put into the result)
+			if used && inLoop(f, call.Block()) {
+				c.keptOnEveryIteration(rule, fn, f, call, construct)
+			}
 		})
 	}
+}
+
+// keptOnEveryIteration: from the edge on which the sub-decoder's error is nil,
+// control does not get back to the head of the loop (or to a successful
+// return) without passing an instruction that puts the decoded value
+// somewhere (an append, a store, a call that is handed the value).
+func (c *Ctx) keptOnEveryIteration(rule string, fn, f *ssa.Function, call *ssa.Call, construct string) {
+	e, kept := errValue(call)
+	if !kept || e == nil {
+		return
+	}
+	var val ssa.Value
+	for _, r := range *call.Referrers() {
+		if ex, ok := r.(*ssa.Extract); ok && ex.Index == 0 {
+			val = ex
+		}
+	}
+	if val == nil {
+		return
+	}
+	// what the value flows into directly, or after a dereference / conversion
+	keep := map[int]bool{}
+	mutators := map[ssa.CallInstruction]bool{}
+	for _, m := range c.mutatorCalls(f) {
+		mutators[m] = true
+	}
+	var mark func(v ssa.Value, depth int)
+	mark = func(v ssa.Value, depth int) {
+		if depth > 3 || v.Referrers() == nil {
+			return
+		}
+		for _, r := range *v.Referrers() {
+			switch x := r.(type) {
+			case *ssa.Store:
+				if x.Val == v {
+					keep[x.Block().Index] = true
+				}
+			case ssa.CallInstruction:
+				// an append, or a library call that changes what it is called on; a
+				// query that only looks at the value keeps nothing
+				if ir.CallID(x) == "builtin.append" || mutators[x] {
+					keep[x.Block().Index] = true
+				}
+			case *ssa.UnOp, *ssa.MakeInterface, *ssa.ChangeType, *ssa.Convert, *ssa.Slice:
+				mark(x.(ssa.Value), depth+1)
+			case *ssa.Return:
+				keep[x.Block().Index] = true
+			}
+		}
+	}
+	mark(val, 0)
+	if len(keep) == 0 {
+		return
+	}
+	var header *ssa.BasicBlock
+	for _, l := range naturalLoops(f) {
+		if l.body[call.Block().Index] && (header == nil || l.body[header.Index]) {
+			header = l.header
+		}
+	}
+	if header == nil {
+		return
+	}
+	cut := map[ir.Edge]bool{}
+	for bi := range keep {
+		for _, s := range f.Blocks[bi].Succs {
+			cut[ir.Edge{From: bi, To: s.Index}] = true
+		}
+	}
+	skipped := ""
+	for _, ce := range ir.CondEdges(f) {
+		v, isNil := errIsNil(ce.RawCond, ce.RawTruth)
+		if v == nil || !isNil || !sameErrValue(v, e) || ce.If == nil {
+			continue
+		}
+		start := f.Blocks[ce.Edge.To]
+		if keep[start.Index] {
+			continue
+		}
+		seen, _ := ir.Reach(f, start, cut)
+		if seen[header.Index] && start != header {
+			skipped = c.IPos(ce.If)
+		}
+	}
+	c.R.Check(skipped == "", rule, name(fn), construct+":every", c.IPos(call),
+		"every value a sub-decoder handed back in the loop is put into the result",
+		"after a successful decode (tested at "+skipped+") the loop can go on to its next iteration without putting the decoded value anywhere: a filter drops input that was consumed, so re-encoding cannot reproduce it")
+}
+
+// ruleUncappedCount (G10.count): the loop that reads the entries of a list runs
+// as long as the header says. A bound that can be a positive constant (a cap
+// put on the announced count "for the allocation" and then used for the loop
+// as well) ends the list early: the rest of it is read as the next list.
+func (c *Ctx) ruleUncappedCount(rule string, rl, rd *ssa.Function) {
+	n := 0
+	for _, g := range c.cone(rl) {
+		for _, f := range withAnon(g) {
+			for _, l := range naturalLoops(f) {
+				reads := false
+				for bi := range l.body {
+					for _, in := range f.Blocks[bi].Instrs {
+						if call, ok := in.(*ssa.Call); ok && ir.Callee(call) == rd {
+							reads = true
+						}
+					}
+				}
+				if !reads {
+					continue
+				}
+				n++
+				capped, where := int64(0), ""
+				for bi := range l.body {
+					b := f.Blocks[bi]
+					iff, ok := b.Instrs[len(b.Instrs)-1].(*ssa.If)
+					if !ok {
+						continue
+					}
+					leaves := false
+					for _, s := range b.Succs {
+						if !l.body[s.Index] {
+							leaves = true
+						}
+					}
+					cmp, isCmp := iff.Cond.(*ssa.BinOp)
+					if !leaves || !isCmp {
+						continue
+					}
+					for _, op := range []ssa.Value{cmp.X, cmp.Y} {
+						if _, isK := ir.ConstInt(op); isK {
+							continue
+						}
+						if ph, isPhi := ir.StripConv(op).(*ssa.Phi); isPhi && l.body[ph.Block().Index] && ph.Block() == l.header {
+							continue // the running counter itself
+						}
+						if k, ok := constantAlternative(resolveCell(ir.StripConv(op)), 0); ok && k > 1 {
+							capped, where = k, c.IPos(iff)
+						}
+					}
+				}
+				c.R.Check(where == "", rule, name(rl), "entry-loop", c.Pos(f.Pos()), "the entries of a list are read as long as the header says, whatever their number",
+					fmt.Sprintf("the bound of the loop that reads the entries (tested at %s) can be the constant %d: a list with more entries is cut off there and the rest of it is taken for the next list", where, capped))
+			}
+		}
+	}
+	if n == 0 {
+		c.R.Infof(rule, name(rl), "entry-loop", c.Pos(rl.Pos()), "not decided for this shape: no loop around the entry decoder found in the list decoder")
+	}
+}
+
+// constantInDecoded: the receiver of an Unmarshal is assigned a composite
+// literal one of whose fields is a package-level constant value, while nothing
+// in the decoder's call tree compares that field with that value (so other
+// values are accepted on the wire and then silently replaced). "" if none.
+func (c *Ctx) constantInDecoded(dv *deepView, recv *ssa.Parameter) string {
+	// literals stored as a whole into the receiver
+	var lits []*ssa.Alloc
+	for _, di := range dv.order {
+		st, ok := di.i.(*ssa.Store)
+		if !ok || di.fr != dv.root || st.Addr != ssa.Value(recv) {
+			continue
+		}
+		if ld, isLd := st.Val.(*ssa.UnOp); isLd && ld.Op == token.MUL {
+			if a, isA := ld.X.(*ssa.Alloc); isA && a.Comment == "complit" {
+				lits = append(lits, a)
+			}
+		}
+	}
+	globalOf := func(v ssa.Value) *ssa.Global {
+		if ld, ok := ir.StripConv(v).(*ssa.UnOp); ok && ld.Op == token.MUL {
+			g, _ := ld.X.(*ssa.Global)
+			return g
+		}
+		return nil
+	}
+	// ... or built right in the receiver (the compiler stores the fields of
+	// `*e = T{...}` in place)
+	roots := []ssa.Value{recv}
+	for _, l := range lits {
+		roots = append(roots, l)
+	}
+	for _, lit := range roots {
+		why := ""
+		instrsOf(dv.root.fn, func(i ssa.Instruction) {
+			st, ok := i.(*ssa.Store)
+			if !ok || why != "" || ir.RootOf(st.Addr) != lit || st.Addr == lit {
+				return
+			}
+			fid := ir.FieldID(st.Addr)
+			g := globalOf(st.Val)
+			if fid == "" || g == nil {
+				return
+			}
+			// is the field compared with this value anywhere in the decoder's call tree?
+			enforced := false
+			seen := map[*ssa.Function]bool{}
+			for _, fr := range dv.framesInOrder() {
+				if seen[fr.fn] {
+					continue
+				}
+				seen[fr.fn] = true
+				instrsOf(fr.fn, func(j ssa.Instruction) {
+					var x, y ssa.Value
+					switch cmp := j.(type) {
+					case *ssa.BinOp:
+						if cmp.Op != token.EQL && cmp.Op != token.NEQ {
+							return
+						}
+						x, y = cmp.X, cmp.Y
+					case *ssa.Call:
+						if id := ir.CallID(cmp); id != M+"/efi/util.CmpEFIGUID" && id != "bytes.Equal" {
+							return
+						}
+						x, y = cmp.Call.Args[0], cmp.Call.Args[1]
+					default:
+						return
+					}
+					for _, p := range [][2]ssa.Value{{x, y}, {y, x}} {
+						if globalOf(p[1]) == g && lastComponent(ir.FieldID(ir.StripConv(p[0]))) == lastComponent(fid) {
+							enforced = true
+						}
+					}
+				})
+			}
+			if !enforced {
+				why = "field " + shortID(fid) + " of the value given to the receiver is the constant " + g.Name() + " (" + c.IPos(st) + "), not what was decoded, and the decoder accepts other values there: they are replaced without an error, so re-encoding does not reproduce the input"
+			}
+		})
+		if why != "" {
+			return why
+		}
+	}
+	return ""
 }
 
 // calleeOrClosure resolves static callees and direct calls of a local closure value.
@@ -400,6 +637,9 @@ func checkC07(c *Ctx) {
 	if db := c.Fn("G2.kept", "efi/signature.ReadSignatureDatabase"); db != nil {
 		c.usedResults("G2.kept", db, rl)
 	}
+	if rdf := c.FnOpt("efi/signature.ReadSignatureData"); rl != nil && rdf != nil {
+		c.ruleUncappedCount("G10.count", rl, rdf)
+	}
 	// K2/K4 keep library-built databases well-formed (shared with C09)
 	c.ruleSizeEquations("K")
 	if ab := c.Fn("K", "efi/signature.(*SignatureList).AppendBytes"); ab != nil {
@@ -557,6 +797,7 @@ func checkC08(c *Ctx) {
 			"the stream handed to the list decoder is bounded at "+bad+": when the bound falls on a list boundary the decoder sees a clean end, and the lists (or garbage) behind it are dropped without an error")
 	}
 	c.usedResults("G2.kept", db, rl)
+	c.ruleUncappedCount("G10.count", rl, rd)
 	c.scopeGuard("scope", len(scope), 4, "library functions reachable from the database decoder")
 	c.R.Floor("A-d.known-type", 1)
 	c.R.Floor("G4.clean-end", 1)
@@ -886,11 +1127,58 @@ func (c *Ctx) eofProvenance(db, rl *ssa.Function) {
 					ok, det = false, "an io.EOF from "+c.IPos(origin)+" reaches the return at "+c.IPos(r)+" although "+c.IPos(i)+" may already have consumed input: a truncated list would be taken for the clean end of the database"
 				}
 			}
+			// the origin is a library helper that reads several times: inside it, too, an
+			// io.EOF may only come back from the first read
+			if ok {
+				if callee := ir.Callee(origin); callee != nil && c.P.InLib(callee) && callee.Blocks != nil {
+					if why := c.eofAfterConsumption(callee, consumers, 0); why != "" {
+						ok, det = false, "the helper "+name(callee)+" hands back an io.EOF after it consumed input ("+why+"), and the list decoder returns it unchanged at "+c.IPos(r)+": a list cut short inside its header would be taken for the clean end of the database"
+					}
+				}
+			}
 			c.R.Check(ok, "G4.eof", name(rl), strings.TrimPrefix(key, name(rl)+":"), c.IPos(r),
 				"an error still matching io.EOF is returned only when nothing of the list was consumed", det)
 		}
 	}
 	c.R.Okf("G4.eof", name(rl), "scan", c.Pos(rl.Pos()), "all returns of the list decoder examined for EOF-transparent errors")
+}
+
+// eofAfterConsumption: some return of the helper hands back, unchanged, the
+// error of a consuming read that is not the helper's first read (it is
+// preceded by another consuming call, or sits in a loop). "" if none.
+func (c *Ctx) eofAfterConsumption(fn *ssa.Function, consumers map[*ssa.Function]bool, depth int) string {
+	if depth > 3 {
+		return ""
+	}
+	for _, r := range ir.Returns(fn) {
+		if len(r.Results) == 0 {
+			continue
+		}
+		for _, origin := range c.eofOrigins(fn, r, r.Results[len(r.Results)-1], nil, 0) {
+			if inLoop(fn, origin.Block()) && !c.firstIterationOnly(fn, r) {
+				return "the read at " + c.IPos(origin) + " is inside a loop"
+			}
+			why := ""
+			instrsOf(fn, func(i ssa.Instruction) {
+				call, isC := i.(ssa.CallInstruction)
+				if !isC || i == ssa.Instruction(origin) || !c.isConsumingCall(call, consumers) {
+					return
+				}
+				if i.Block() == origin.Block() && precedes(i, origin) || i.Block() != origin.Block() && reachableFrom(fn, i.Block(), origin.Block()) {
+					why = c.IPos(i) + " reads before " + c.IPos(origin)
+				}
+			})
+			if why != "" {
+				return why
+			}
+			if callee := ir.Callee(origin); callee != nil && c.P.InLib(callee) && callee.Blocks != nil {
+				if w := c.eofAfterConsumption(callee, consumers, depth+1); w != "" {
+					return w
+				}
+			}
+		}
+	}
+	return ""
 }
 
 func inLoop(fn *ssa.Function, b *ssa.BasicBlock) bool {
@@ -1213,6 +1501,12 @@ func (c *Ctx) ruleDecodeReplaces(rule string, in func(*ssa.Function) bool) int {
 			} else {
 				reset = true
 			}
+		}
+		// what is stored is a literal built in place: a wire field of it that is set to a
+		// constant (instead of what was decoded) must be one the decoder admits no
+		// other value for, or decode(encode(v)) is not v for the other values
+		if why := c.constantInDecoded(dv, recv); why != "" {
+			c.R.Violf(rule, name(fn), "decoded-fields", c.Pos(fn.Pos()), "the receiver is given the decoded value, field for field", why)
 		}
 		if stores == 0 {
 			// field by field: a field whose new value is built from its own previous
